@@ -53,7 +53,7 @@ pub struct Hyp {
     pub score: f32,
 }
 
-/// The decoder under test. The engine uses [`Rten`]; the self-test plugs in local copies.
+/// The decoder under test. The engine uses [`Rten`]; the indirection lets a scratch harness plug in local copies.
 pub trait Decoder: Sync {
     fn greedy(&self, m: &Matrix) -> Hyp;
     fn beam_nbest(&self, m: &Matrix, width: u32, n_best: u32) -> Vec<Hyp>;
@@ -537,7 +537,7 @@ fn run_case(dec: &dyn Decoder, c: &Json, loc: &mut Local) -> Vec<Fail> {
     }
 }
 
-/// Enumerate one sub-box with decoder `dec`. Public so the self-test can reuse it.
+/// Enumerate one sub-box with decoder `dec`.
 pub fn explore_box(dec: &dyn Decoder, sb: &SubBox, sample_cap: usize) -> Local {
     let points = simplex(sb.l, sb.den);
     let total = points.len().pow(sb.t as u32);
